@@ -234,4 +234,9 @@ def _instance(ck, tag, name, D, N, C, frac, pins, make, orac):
 def _cutoff_all_N(ck):
     from vlib import pyk
 
-    pyk.cutoff_obligations(ck)
+    try:
+        pyk.cutoff_obligations(ck)
+    except (pyk.OutOfDate, RuntimeError) as ex_:
+        # the scalar kernel no longer has a shape the extractor knows: inconclusive for the all-N part (harness
+        # error unless another obligation already reports a violation), never a pass
+        ck.error(f"E2 encoding out of date for the cut-off kernel: {ex_}")
